@@ -49,6 +49,23 @@ Fixpoint get_active (l : list (list nat * nat)) (path : list nat) : option nat :
   | (p, c) :: l' => if path_eqb p path then Some c else get_active l' path
   end.
 
+(* commands along Active pointers starting at the root *)
+Fixpoint active_chain (fuel : nat) (active : list (list nat * nat)) (c : command) (path : list nat)
+  : list (list nat * command) :=
+  match fuel with
+  | O => []
+  | S f =>
+    (path, c) ::
+    match get_active active path with
+    | Some i => match nth_error (cmd_subs c) i with
+                | Some sub => active_chain f active sub (path ++ [i])
+                | None => []
+                end
+    | None => []
+    end
+  end.
+
+
 Definition log_call (r : rt) (fid : nat) (a : option value) : rt :=
   let l := rt_logs r in
   set_logs r {| l_calls := l_calls l ++ [(fid, a)]; l_exec := l_exec l; l_unknown := l_unknown l; l_out := l_out l |}.
